@@ -88,6 +88,15 @@ def corpus():
         if lab:
             c["label"] = lab
         out.append(c)
+    # seeded C06-d: the two orders of the occurrences are perm_sels variants of each other
+    rs = {}
+    for n, lab, order, defs in c05._RS:
+        rs[(n, order)] = (lab, gen_valid.render({"defs": defs}, "plain"))
+    for (n, order), (lab, text) in rs.items():
+        c = {"sdl": c05.WITNESS_SDL, "text": text, "base_text": rs[(n, 1 - order)][1], "variant": "perm_sels", "origin": "witness"}
+        if lab:
+            c["label"] = lab
+        out.append(c)
     chain = c05._CHAIN
     head = "query Q($v: Int) { anchor(req: 1, inn: {v: 1}, lnn: [1]) { ...Ta } }"
     base = head + " " + " ".join(chain)
@@ -134,6 +143,7 @@ def run_impl(case):
     base = vc.run_rules(dict(case, text=case["base_text"]))
     obs["base_reported"] = base["reported"]
     obs["base_raised"] = base["raised"]
+    obs["base_full"] = base.get("full")
     return obs
 
 
@@ -164,6 +174,8 @@ def direct_checks(case, obs):
     out = vc.rules_direct_checks(case, obs)
     if not obs["raised"] and not obs["base_raised"] and obs["reported"] != obs["base_reported"]:
         out.append(("verdict-unchanged-by-%s" % case["variant"], None))
+    elif "full" in obs and obs.get("base_full") is not None and bool(obs["full"]) != bool(obs["base_full"]):
+        out.append(("default-validator-verdict-unchanged-by-%s" % case["variant"], None))
     return out
 
 
